@@ -4,12 +4,26 @@ package main
 // by the symbolic interpreter.
 
 import (
+	"crypto/sha256"
+	"encoding/binary"
 	"fmt"
+	"os"
 	"go/types"
 	"math/big"
 
 	"golang.org/x/tools/go/ssa"
 )
+
+func prfExpand(seed []byte, n int) []byte {
+	var out []byte
+	ctr := byte(0)
+	for len(out) < n {
+		s := sha256.Sum256(append(append([]byte{}, seed...), ctr))
+		out = append(out, s[:]...)
+		ctr++
+	}
+	return out[:n]
+}
 
 func (w *Worker) symName(name string) string {
 	k := w.symCount[name]
@@ -168,6 +182,27 @@ func registerVAPI(I map[string]intrinsicFn) {
 		}
 		return w.tc.Const(64, 0)
 	}
+	I[P+"vDump"] = func(w *Worker, fn *ssa.Function, a []Value) Value {
+		name := w.concStr(a[0], "dump name")
+		v := a[1]
+		if i, ok := v.(Iface); ok {
+			v = i.V
+		}
+		switch x := v.(type) {
+		case Slice:
+			for i, e := range x {
+				if i > 2 {
+					break
+				}
+				fmt.Fprintf(os.Stderr, "DUMP %s[%d] = %s\n", name, i, trunc(e.(*Term).String(), 1500))
+			}
+		case Ptr:
+			if b, ok := (*x).(BigVal); ok && b.T != nil {
+				fmt.Fprintf(os.Stderr, "DUMP %s = %s\n", name, trunc(b.T.String(), 1500))
+			}
+		}
+		return nil
+	}
 	I[P+"vIsSymbolic"] = func(w *Worker, fn *ssa.Function, a []Value) Value { return w.tc.True }
 	I[P+"vUFBytes"] = func(w *Worker, fn *ssa.Function, a []Value) Value {
 		// vUFBytes(name string, outLen int, args ...[]byte) []byte
@@ -175,6 +210,26 @@ func registerVAPI(I map[string]intrinsicFn) {
 		n := w.concInt(a[1], "uf out length")
 		var args []*Term
 		lens := ""
+		if w.h.Concrete != nil && a[2] != nil {
+			all := true
+			for _, x := range a[2].(Slice) {
+				if !allConst(w.sliceTerms(x)) {
+					all = false
+				}
+			}
+			if all {
+				h := sha256.New()
+				h.Write([]byte(name))
+				for _, x := range a[2].(Slice) {
+					bs := termsToBytes(w.sliceTerms(x))
+					var l [8]byte
+					binary.BigEndian.PutUint64(l[:], uint64(len(bs)))
+					h.Write(l[:])
+					h.Write(bs)
+				}
+				return w.bytesToSlice(prfExpand(h.Sum(nil), n))
+			}
+		}
 		if a[2] != nil {
 			for _, x := range a[2].(Slice) {
 				ts := w.sliceTerms(x)
@@ -185,6 +240,9 @@ func registerVAPI(I map[string]intrinsicFn) {
 			}
 		}
 		t := w.tc.UF("h_"+name+lens, 8*n, args...)
+		if n >= 8 {
+			w.ufInjective(t.Name, t)
+		}
 		return w.termsToSlice(w.splitBytes(t))
 	}
 	I[P+"vUFU64"] = func(w *Worker, fn *ssa.Function, a []Value) Value {
@@ -197,7 +255,28 @@ func registerVAPI(I map[string]intrinsicFn) {
 				args = append(args, x.(*Term))
 			}
 		}
+		if w.h.Concrete != nil {
+			all := true
+			for _, x := range args {
+				if !x.IsConst() {
+					all = false
+				}
+			}
+			if all {
+				h := sha256.New()
+				h.Write([]byte(name))
+				for _, x := range args {
+					var l [8]byte
+					binary.BigEndian.PutUint64(l[:], x.U64Sat())
+					h.Write(l[:])
+				}
+				return w.bytesToSlice(prfExpand(h.Sum(nil), n))
+			}
+		}
 		t := w.tc.UF(fmt.Sprintf("h_%s_a%d", name, len(args)), 8*n, args...)
+		if n >= 8 {
+			w.ufInjective(t.Name, t)
+		}
 		return w.termsToSlice(w.splitBytes(t))
 	}
 	I[P+"vHeapHolds"] = func(w *Worker, fn *ssa.Function, a []Value) Value {
